@@ -26,6 +26,13 @@ struct Spec {
     /// build the Config through Config::read() from a generated YAML file + secret file instead
     /// of filling the struct (covers defaults, field names and the secret-file layer)
     from_file: bool,
+    /// with `from_file`: the layers disagree, as they do in a deployment that overrides a shipped
+    /// file. 1 = the config file carries a stale secret and a stale timeout (30 s), the secret file
+    /// and PASSAGE_TIMEOUT carry the operator's values; 2 = no secret in any file,
+    /// PASSAGE_AUTHSECRET carries it (documented order: environment > secret file > file).
+    /// (A secret in a file *and* in PASSAGE_AUTHSECRET makes Config::read fail with "duplicate
+    /// field" - the application does not start, so no connection is handled: not a C14 matter.)
+    layered: u8,
 }
 
 static ENV_LOCK: std::sync::Mutex<()> = std::sync::Mutex::new(());
@@ -36,22 +43,33 @@ fn config_from_file(spec: &Spec, addr: SocketAddr) -> Result<Config, String> {
     std::fs::create_dir_all(&dir).map_err(|e| e.to_string())?;
     let yaml = format!(
         "address: \"{addr}\"\ntimeout: {}\nmax_packet_length: {}\nauth_cookie_expiry: {}\nadapters:\n  discovery:\n    fixed:\n      targets:\n      - identifier: \"only\"\n        address: \"10.9.8.7:25565\"\n  authentication:\n    fixed:\n      profile:\n        id: \"00000000-0000-0000-0000-00000000004d\"\n        name: \"FixedUser\"\n",
-        spec.timeout, spec.max_packet_length, spec.expiry
+        if spec.layered > 0 { 30 } else { spec.timeout }, spec.max_packet_length, spec.expiry
     );
+    let yaml = if spec.layered == 1 { format!("{yaml}auth_secret: \"stale secret shipped in the config file\"\n") } else { yaml };
     let cfg_path = dir.join("config.yaml");
     let secret_path = dir.join("auth_secret");
     std::fs::write(&cfg_path, yaml).map_err(|e| e.to_string())?;
-    std::fs::write(&secret_path, &spec.secret).map_err(|e| e.to_string())?;
+    if spec.layered != 2 {
+        std::fs::write(&secret_path, spec.secret.as_str()).map_err(|e| e.to_string())?;
+    }
     let _g = ENV_LOCK.lock().unwrap_or_else(|e| e.into_inner());
     // SAFETY: the variables are only read by Config::read() below, under the same lock
     unsafe {
         std::env::set_var("CONFIG_FILE", &cfg_path);
         std::env::set_var("AUTH_SECRET_FILE", &secret_path);
+        if spec.layered > 0 {
+            std::env::set_var("PASSAGE_TIMEOUT", spec.timeout.to_string());
+        }
+        if spec.layered == 2 {
+            std::env::set_var("PASSAGE_AUTHSECRET", &spec.secret);
+        }
     }
     let res = Config::read().map_err(|e| format!("Config::read failed: {e}"));
     unsafe {
         std::env::remove_var("CONFIG_FILE");
         std::env::remove_var("AUTH_SECRET_FILE");
+        std::env::remove_var("PASSAGE_TIMEOUT");
+        std::env::remove_var("PASSAGE_AUTHSECRET");
     }
     let _ = std::fs::remove_dir_all(&dir);
     res
@@ -319,18 +337,20 @@ pub async fn run(cli: &Cli, report: &mut Report) {
     let lateness = tcp::Lateness::start();
     let specs: Vec<Spec> = {
         let mut v = vec![
-            Spec { max_packet_length: 64, expiry: 5, timeout: 1, secret: "operator secret A".into(), from_file: true },
-            Spec { max_packet_length: 16, expiry: 60, timeout: 2, secret: "operator secret E".into(), from_file: false },
-            Spec { max_packet_length: 400, expiry: 60, timeout: 2, secret: "operator secret B".into(), from_file: true },
-            Spec { max_packet_length: 2000, expiry: 5, timeout: 3, secret: "s".into(), from_file: false },
+            Spec { max_packet_length: 64, expiry: 5, timeout: 1, secret: "operator secret A".into(), from_file: true, layered: 0 },
+            Spec { max_packet_length: 16, expiry: 60, timeout: 2, secret: "operator secret E".into(), from_file: false, layered: 0 },
+            Spec { max_packet_length: 400, expiry: 60, timeout: 2, secret: "operator secret B".into(), from_file: true, layered: 1 },
+            Spec { max_packet_length: 2000, expiry: 5, timeout: 3, secret: "s".into(), from_file: false, layered: 0 },
             // long deadline: room for clients that stall before presenting their cookie
-            Spec { max_packet_length: 1000, expiry: 5, timeout: 8, secret: "operator secret F".into(), from_file: false },
+            Spec { max_packet_length: 1000, expiry: 5, timeout: 8, secret: "operator secret F".into(), from_file: false, layered: 0 },
             // server-issued cookies presented within / beyond the configured expiry
-            Spec { max_packet_length: 1000, expiry: 4, timeout: 9, secret: "operator secret G".into(), from_file: false },
+            Spec { max_packet_length: 1000, expiry: 4, timeout: 9, secret: "operator secret G".into(), from_file: false, layered: 0 },
         ];
+        // every layer of the configuration disagrees; the environment decides
+        v.push(Spec { max_packet_length: 450, expiry: 60, timeout: 3, secret: "operator secret H".into(), from_file: true, layered: 2 });
         if thorough {
-            v.push(Spec { max_packet_length: 1000, expiry: 60, timeout: 18, secret: "operator secret C".into(), from_file: false });
-            v.push(Spec { max_packet_length: 500, expiry: 3600, timeout: 4, secret: "operator secret D".into(), from_file: false });
+            v.push(Spec { max_packet_length: 1000, expiry: 60, timeout: 18, secret: "operator secret C".into(), from_file: false, layered: 0 });
+            v.push(Spec { max_packet_length: 500, expiry: 3600, timeout: 4, secret: "operator secret D".into(), from_file: false, layered: 0 });
         }
         v
     };
